@@ -117,7 +117,19 @@ class MathProxy(object):
 
     @staticmethod
     def isclose(a, b, rel_tol=None, abs_tol=None):
-        raise qnum.Undecided('math.isclose')
+        # the documented definition: abs(a - b) <= max(rel_tol * max(abs(a), abs(b)), abs_tol); defaults 1e-09 and 0.0
+        from fractions import Fraction
+        a, b = qnum.lift(a), qnum.lift(b)
+        rel = qnum.lift(Fraction(1, 10 ** 9)) if rel_tol is None else qnum.lift(rel_tol)
+        ab = qnum.lift(0) if abs_tol is None else qnum.lift(abs_tol)
+        if a == b:
+            return True
+        aa, bb = abs(a), abs(b)
+        big = aa if aa >= bb else bb
+        bound = rel * big
+        if bound < ab:
+            bound = ab
+        return abs(a - b) <= bound
 
 
 MATH = MathProxy()
